@@ -344,6 +344,8 @@ func (Engine) Run(c *choice.Src, o engine.Opt) (out engine.Out) {
 	out.SimTime["go_objects_handed_to_C_and_reported_to_race_detector"] += sim.CArgs
 	out.SimTime["go_objects_modified_by_C"] += sim.CWrites
 	out.Faults["sched.map_iteration_order_drawn"] += sim.MapOrders
+	out.Faults["sched.channel_operation_in_library"] += sim.ChanOps
+	out.Faults["sched.task_parked_on_channel"] += sim.ChanBlocks
 	out.Probes["lock_contended"] += sim.Contended
 	out.Probes["switch_inside_critical_section"] += sim.SwitchInCrit
 	if sim.Switches > ntasks {
